@@ -15,3 +15,6 @@ import icontract, jsonschema, bitproto, bitprotolib
 assert bitproto.__file__.startswith('/repo/'), bitproto.__file__
 print("setup ok", bitproto.__file__)
 PY
+# anchor the reference semantics on README / language guide / upstream golden digests (informational: never fails the setup,
+# a tree under test may be deliberately broken)
+PYTHONPATH=.:.deps:/repo/compiler:/repo/lib/py /venv/bin/python tools/validate_ref.py 2>&1 | tail -3 || true
